@@ -22,6 +22,10 @@ def run(tier):
                    what='evolve command: queue_purge_old_apps() is called iff --purge (stub Evolver)', bounds='all flag combinations',
                    functions=['management/commands/evolve.py Command._add_tasks']),
     ]
+    obs.append(Obligation('stale_apps', 'harness/c15.py', 'h_stale_apps', partitions=[[a, b] for a in range(4) for b in range(4)], timeout=300, twin_partition=[2, 0],
+                          what='which stored apps are stale (Diff.deleted, what queue_purge_old_apps purges): exactly those installed neither under their stored label nor under a new label whose legacy_app_label is the stored one; ignored without --purge (is_empty(ignore_apps=True)); purging them leaves exactly the other apps',
+                          bounds='2 stored apps with labels from a pool with prefix relations x 4 fates each (installed, renamed with legacy label, gone, gone while a look-alike label appears) x extra new app x purge',
+                          functions=['signature.py ProjectSignature.diff, get_app_sig', 'diff.py Diff.__init__, is_empty', 'evolve/purge_app_task.py PurgeAppTask.prepare']))
     return run_check('C15', obs, tier,
                      assumptions=['signature + DROP-set kernel: rows and tables of other apps in a real database are outside',
                                   'stub evolver object carrying project_sig/database_state/database_name for PurgeAppTask',
